@@ -35,6 +35,16 @@ RULES = {
         (r"log_weights = log_weights\[idx\]|if not values_sorted", "fixed", "unsorted input path never exercised; now permuted (value, weight) pairs must give the same quantile"),
         (r"quantiles = np\.asarray|out=end_points|expand_dims", "equivalent", "same result for array input / one column / 1-d values"),
     ],
+    "C01": [
+        (r"oldparam = newparam\.copy\(\)", "equivalent", "insert_live_point copies the values into the live array; the alias is never written"),
+        (r"block_iteration|debug_enabled", "outside", "block statistics / debug logging"),
+        (r"while i < self\.nlive", "equivalent", "the inner loop has the same guard"),
+        (r"swap first two arguments of max", "equivalent", "max is commutative"),
+    ],
+    "C18": [
+        (r"names = list\(live_points\.dtype\.names\)", "fixed", "no case called a converter with names=None (the default); default-argument calls added"),
+        (r"default_values = tuple|if n == 0|N = 1|scalars = True", "equivalent", "same outputs (tuple vs list, the n = 0 fast path, the scalar-dict branch)"),
+    ],
     "C16": [
         (r"np\.asarray\(", "equivalent", "the harness passes arrays; asarray is the identity on them"),
         (r"np\.where\(log_w > log_u\)\[0\]", "equivalent", "np.where returns a 1-tuple: [-1] is [0]"),
